@@ -11,49 +11,50 @@ use vh_lite::{read_cases, drive, drive_group, quiet_panics, Out};
 mod tc_right__ser;
 mod tc_left__to;
 mod tc_left__srcto;
-mod tc_left__permpar;
-mod tc_nonlin__topar;
-mod mutual__ser;
-mod mutual__src0;
-mod mutual__perm1;
-mod scc_chain__par;
-mod scc_chain__str;
-mod consts__pari;
-mod repeated__str;
-mod three_dyn__perm1;
-mod four_dyn__par;
-mod conds__src0;
-mod conds__perm1;
-mod count_up__par;
-mod multi_head__topar;
-mod facts__run;
-mod facts__init;
-mod facts__u64;
-mod opt_cols__src0;
-mod cartesian__ser;
-mod same_gen__perm1;
-mod not_reorderable__par;
-mod pre_join_rec__ser;
-mod pre_join_rec__permpar;
-mod two_inputs__gen;
-mod two_inputs__srcpar;
-mod wild__ser;
-mod ternary__ren;
-mod bound_mix__perm1;
-mod join_chain__par;
-mod join_chain__strpar;
-mod reach__topar;
-mod lag_right__par;
-mod lag_right__str;
-mod lag_three__ser;
-mod lag_mid__perm1;
-mod lag_late_delta__par;
-mod multi_head_rec__topar;
-mod sp_dual__run;
-mod sp_dual__init;
-mod sp_weighted__par;
-mod longest_capped__topar;
-mod set_reach__gen;
+mod tc_left__ren;
+mod tc_nonlin__to;
+mod tc_nonlin__strpar;
+mod mutual__gen;
+mod mutual__runpar;
+mod mutual__strpar;
+mod scc_chain__ren;
+mod consts__ser;
+mod repeated__ren;
+mod three_dyn__to;
+mod three_dyn__strpar;
+mod conds__mrt;
+mod conds__init;
+mod expr_args__par;
+mod multi_head__par;
+mod facts__ser;
+mod facts__src2;
+mod facts__perm2;
+mod opt_cols__pari;
+mod opt_cols__srcred;
+mod same_gen__ser;
+mod same_gen__permpar;
+mod not_reorderable__topar;
+mod pre_join_rec__to;
+mod two_inputs__pari;
+mod two_inputs__src2;
+mod two_inputs__perm2;
+mod wild__pari;
+mod ternary__str;
+mod bound_mix__ren;
+mod join_chain__perm1;
+mod cond_simple_join__par;
+mod zero_arity__par;
+mod lag_right__to;
+mod lag_right__strpar;
+mod lag_three__pari;
+mod lag_mid__ren;
+mod lag_late_delta__to;
+mod multi_head_rec__exppar;
+mod sp_dual__gen;
+mod sp_dual__runpar;
+mod sp_weighted__pari;
+mod set_reach__ser;
+mod set_reach__src0;
 mod set_reach__srcpar;
 mod cp__pari;
 mod lex_lat__pari;
@@ -61,102 +62,104 @@ mod lat_multi_improve__par;
 mod lat_pre_join__topar;
 mod lat_input__par;
 mod lat_input__src1;
-mod count_paths__par;
-mod count_paths__src1;
-mod neg_basic__par;
-mod neg_basic__src1;
-mod neg_basic__perm2;
-mod agg_depth__ser;
-mod agg_lattice__to;
-mod neg_rec_after__exp;
-mod agg_empty__to;
-mod agg_const_args__par;
-mod disj__par;
-mod disj__src1;
-mod disj__perm2;
-mod disj_nested__exp;
-mod rep_expr__par;
-mod multi_head_disj__exppar;
-mod mac_basic__pari;
-mod mac_basic__src2;
-mod mac_capture__ser;
-mod mac_nested__exp;
-mod mac_disj__par;
-mod stress_rel__par;
-mod rnd_core_03__ser;
-mod rnd_core_05__pari;
-mod rnd_core_08__par;
-mod rnd_core_11__ser;
-mod rnd_core_13__pari;
-mod rnd_core_16__par;
-mod rnd_core_19__ser;
-mod rnd_core_21__pari;
-mod rnd_core_24__par;
-mod rnd_core_27__ser;
-mod rnd_core_29__pari;
-mod rnd_agg_02__par;
-mod rnd_agg_05__ser;
-mod rnd_agg_07__pari;
-mod rnd_agg_10__par;
-mod rnd_agg_13__ser;
-mod rnd_agg_15__pari;
-mod rnd_prec_02__pari;
-mod rnd_prec_04__ser;
-mod rnd_prec_05__to;
-mod rnd_prec_07__par;
-mod rnd_prec_08__topar;
-mod rnd_prea_03__par;
-mod rnd_prea_06__ser;
-mod rnd_prea_08__pari;
+mod count_paths__ser;
+mod count_paths__src0;
+mod count_paths__srcpar;
+mod neg_basic__gen;
+mod neg_basic__runpar;
+mod agg_minmaxsum__ser;
+mod agg_lattice__ser;
+mod neg_rec_after__ser;
+mod agg_empty__ser;
+mod agg_empty_rel__to;
+mod agg_pre_join__par;
+mod disj__mrt;
+mod disj__init;
+mod disj__exppar;
+mod pat_args__pari;
+mod multi_head_disj__ser;
+mod neg_in_disj__exp;
+mod mac_basic__mrt;
+mod mac_basic__init;
+mod mac_capture__exp;
+mod mac_gensym_disj__par;
+mod mac_local_names__exppar;
+mod mac_disj__pari;
+mod stress_rel__pari;
+mod rnd_core_03__par;
+mod rnd_core_06__ser;
+mod rnd_core_08__pari;
+mod rnd_core_11__par;
+mod rnd_core_14__ser;
+mod rnd_core_16__pari;
+mod rnd_core_19__par;
+mod rnd_core_22__ser;
+mod rnd_core_24__pari;
+mod rnd_core_27__par;
+mod rnd_core_30__ser;
+mod rnd_agg_02__pari;
+mod rnd_agg_05__par;
+mod rnd_agg_08__ser;
+mod rnd_agg_10__pari;
+mod rnd_agg_13__par;
+mod rnd_prec_01__ser;
+mod rnd_prec_02__to;
+mod rnd_prec_04__par;
+mod rnd_prec_05__topar;
+mod rnd_prec_07__pari;
+mod rnd_prea_01__ser;
+mod rnd_prea_03__pari;
+mod rnd_prea_06__par;
 
 fn lookup(name: &str) -> fn() -> Box<dyn Driven> {
    match name {
       "tc_right__ser" => tc_right__ser::make,
       "tc_left__to" => tc_left__to::make,
       "tc_left__srcto" => tc_left__srcto::make,
-      "tc_left__permpar" => tc_left__permpar::make,
-      "tc_nonlin__topar" => tc_nonlin__topar::make,
-      "mutual__ser" => mutual__ser::make,
-      "mutual__src0" => mutual__src0::make,
-      "mutual__perm1" => mutual__perm1::make,
-      "scc_chain__par" => scc_chain__par::make,
-      "scc_chain__str" => scc_chain__str::make,
-      "consts__pari" => consts__pari::make,
-      "repeated__str" => repeated__str::make,
-      "three_dyn__perm1" => three_dyn__perm1::make,
-      "four_dyn__par" => four_dyn__par::make,
-      "conds__src0" => conds__src0::make,
-      "conds__perm1" => conds__perm1::make,
-      "count_up__par" => count_up__par::make,
-      "multi_head__topar" => multi_head__topar::make,
-      "facts__run" => facts__run::make,
-      "facts__init" => facts__init::make,
-      "facts__u64" => facts__u64::make,
-      "opt_cols__src0" => opt_cols__src0::make,
-      "cartesian__ser" => cartesian__ser::make,
-      "same_gen__perm1" => same_gen__perm1::make,
-      "not_reorderable__par" => not_reorderable__par::make,
-      "pre_join_rec__ser" => pre_join_rec__ser::make,
-      "pre_join_rec__permpar" => pre_join_rec__permpar::make,
-      "two_inputs__gen" => two_inputs__gen::make,
-      "two_inputs__srcpar" => two_inputs__srcpar::make,
-      "wild__ser" => wild__ser::make,
-      "ternary__ren" => ternary__ren::make,
-      "bound_mix__perm1" => bound_mix__perm1::make,
-      "join_chain__par" => join_chain__par::make,
-      "join_chain__strpar" => join_chain__strpar::make,
-      "reach__topar" => reach__topar::make,
-      "lag_right__par" => lag_right__par::make,
-      "lag_right__str" => lag_right__str::make,
-      "lag_three__ser" => lag_three__ser::make,
-      "lag_mid__perm1" => lag_mid__perm1::make,
-      "lag_late_delta__par" => lag_late_delta__par::make,
-      "multi_head_rec__topar" => multi_head_rec__topar::make,
-      "sp_dual__run" => sp_dual__run::make,
-      "sp_dual__init" => sp_dual__init::make,
-      "sp_weighted__par" => sp_weighted__par::make,
-      "longest_capped__topar" => longest_capped__topar::make,
-      "set_reach__gen" => set_reach__gen::make,
+      "tc_left__ren" => tc_left__ren::make,
+      "tc_nonlin__to" => tc_nonlin__to::make,
+      "tc_nonlin__strpar" => tc_nonlin__strpar::make,
+      "mutual__gen" => mutual__gen::make,
+      "mutual__runpar" => mutual__runpar::make,
+      "mutual__strpar" => mutual__strpar::make,
+      "scc_chain__ren" => scc_chain__ren::make,
+      "consts__ser" => consts__ser::make,
+      "repeated__ren" => repeated__ren::make,
+      "three_dyn__to" => three_dyn__to::make,
+      "three_dyn__strpar" => three_dyn__strpar::make,
+      "conds__mrt" => conds__mrt::make,
+      "conds__init" => conds__init::make,
+      "expr_args__par" => expr_args__par::make,
+      "multi_head__par" => multi_head__par::make,
+      "facts__ser" => facts__ser::make,
+      "facts__src2" => facts__src2::make,
+      "facts__perm2" => facts__perm2::make,
+      "opt_cols__pari" => opt_cols__pari::make,
+      "opt_cols__srcred" => opt_cols__srcred::make,
+      "same_gen__ser" => same_gen__ser::make,
+      "same_gen__permpar" => same_gen__permpar::make,
+      "not_reorderable__topar" => not_reorderable__topar::make,
+      "pre_join_rec__to" => pre_join_rec__to::make,
+      "two_inputs__pari" => two_inputs__pari::make,
+      "two_inputs__src2" => two_inputs__src2::make,
+      "two_inputs__perm2" => two_inputs__perm2::make,
+      "wild__pari" => wild__pari::make,
+      "ternary__str" => ternary__str::make,
+      "bound_mix__ren" => bound_mix__ren::make,
+      "join_chain__perm1" => join_chain__perm1::make,
+      "cond_simple_join__par" => cond_simple_join__par::make,
+      "zero_arity__par" => zero_arity__par::make,
+      "lag_right__to" => lag_right__to::make,
+      "lag_right__strpar" => lag_right__strpar::make,
+      "lag_three__pari" => lag_three__pari::make,
+      "lag_mid__ren" => lag_mid__ren::make,
+      "lag_late_delta__to" => lag_late_delta__to::make,
+      "multi_head_rec__exppar" => multi_head_rec__exppar::make,
+      "sp_dual__gen" => sp_dual__gen::make,
+      "sp_dual__runpar" => sp_dual__runpar::make,
+      "sp_weighted__pari" => sp_weighted__pari::make,
+      "set_reach__ser" => set_reach__ser::make,
+      "set_reach__src0" => set_reach__src0::make,
       "set_reach__srcpar" => set_reach__srcpar::make,
       "cp__pari" => cp__pari::make,
       "lex_lat__pari" => lex_lat__pari::make,
@@ -164,53 +167,54 @@ fn lookup(name: &str) -> fn() -> Box<dyn Driven> {
       "lat_pre_join__topar" => lat_pre_join__topar::make,
       "lat_input__par" => lat_input__par::make,
       "lat_input__src1" => lat_input__src1::make,
-      "count_paths__par" => count_paths__par::make,
-      "count_paths__src1" => count_paths__src1::make,
-      "neg_basic__par" => neg_basic__par::make,
-      "neg_basic__src1" => neg_basic__src1::make,
-      "neg_basic__perm2" => neg_basic__perm2::make,
-      "agg_depth__ser" => agg_depth__ser::make,
-      "agg_lattice__to" => agg_lattice__to::make,
-      "neg_rec_after__exp" => neg_rec_after__exp::make,
-      "agg_empty__to" => agg_empty__to::make,
-      "agg_const_args__par" => agg_const_args__par::make,
-      "disj__par" => disj__par::make,
-      "disj__src1" => disj__src1::make,
-      "disj__perm2" => disj__perm2::make,
-      "disj_nested__exp" => disj_nested__exp::make,
-      "rep_expr__par" => rep_expr__par::make,
-      "multi_head_disj__exppar" => multi_head_disj__exppar::make,
-      "mac_basic__pari" => mac_basic__pari::make,
-      "mac_basic__src2" => mac_basic__src2::make,
-      "mac_capture__ser" => mac_capture__ser::make,
-      "mac_nested__exp" => mac_nested__exp::make,
-      "mac_disj__par" => mac_disj__par::make,
-      "stress_rel__par" => stress_rel__par::make,
-      "rnd_core_03__ser" => rnd_core_03__ser::make,
-      "rnd_core_05__pari" => rnd_core_05__pari::make,
-      "rnd_core_08__par" => rnd_core_08__par::make,
-      "rnd_core_11__ser" => rnd_core_11__ser::make,
-      "rnd_core_13__pari" => rnd_core_13__pari::make,
-      "rnd_core_16__par" => rnd_core_16__par::make,
-      "rnd_core_19__ser" => rnd_core_19__ser::make,
-      "rnd_core_21__pari" => rnd_core_21__pari::make,
-      "rnd_core_24__par" => rnd_core_24__par::make,
-      "rnd_core_27__ser" => rnd_core_27__ser::make,
-      "rnd_core_29__pari" => rnd_core_29__pari::make,
-      "rnd_agg_02__par" => rnd_agg_02__par::make,
-      "rnd_agg_05__ser" => rnd_agg_05__ser::make,
-      "rnd_agg_07__pari" => rnd_agg_07__pari::make,
-      "rnd_agg_10__par" => rnd_agg_10__par::make,
-      "rnd_agg_13__ser" => rnd_agg_13__ser::make,
-      "rnd_agg_15__pari" => rnd_agg_15__pari::make,
-      "rnd_prec_02__pari" => rnd_prec_02__pari::make,
-      "rnd_prec_04__ser" => rnd_prec_04__ser::make,
-      "rnd_prec_05__to" => rnd_prec_05__to::make,
-      "rnd_prec_07__par" => rnd_prec_07__par::make,
-      "rnd_prec_08__topar" => rnd_prec_08__topar::make,
-      "rnd_prea_03__par" => rnd_prea_03__par::make,
-      "rnd_prea_06__ser" => rnd_prea_06__ser::make,
-      "rnd_prea_08__pari" => rnd_prea_08__pari::make,
+      "count_paths__ser" => count_paths__ser::make,
+      "count_paths__src0" => count_paths__src0::make,
+      "count_paths__srcpar" => count_paths__srcpar::make,
+      "neg_basic__gen" => neg_basic__gen::make,
+      "neg_basic__runpar" => neg_basic__runpar::make,
+      "agg_minmaxsum__ser" => agg_minmaxsum__ser::make,
+      "agg_lattice__ser" => agg_lattice__ser::make,
+      "neg_rec_after__ser" => neg_rec_after__ser::make,
+      "agg_empty__ser" => agg_empty__ser::make,
+      "agg_empty_rel__to" => agg_empty_rel__to::make,
+      "agg_pre_join__par" => agg_pre_join__par::make,
+      "disj__mrt" => disj__mrt::make,
+      "disj__init" => disj__init::make,
+      "disj__exppar" => disj__exppar::make,
+      "pat_args__pari" => pat_args__pari::make,
+      "multi_head_disj__ser" => multi_head_disj__ser::make,
+      "neg_in_disj__exp" => neg_in_disj__exp::make,
+      "mac_basic__mrt" => mac_basic__mrt::make,
+      "mac_basic__init" => mac_basic__init::make,
+      "mac_capture__exp" => mac_capture__exp::make,
+      "mac_gensym_disj__par" => mac_gensym_disj__par::make,
+      "mac_local_names__exppar" => mac_local_names__exppar::make,
+      "mac_disj__pari" => mac_disj__pari::make,
+      "stress_rel__pari" => stress_rel__pari::make,
+      "rnd_core_03__par" => rnd_core_03__par::make,
+      "rnd_core_06__ser" => rnd_core_06__ser::make,
+      "rnd_core_08__pari" => rnd_core_08__pari::make,
+      "rnd_core_11__par" => rnd_core_11__par::make,
+      "rnd_core_14__ser" => rnd_core_14__ser::make,
+      "rnd_core_16__pari" => rnd_core_16__pari::make,
+      "rnd_core_19__par" => rnd_core_19__par::make,
+      "rnd_core_22__ser" => rnd_core_22__ser::make,
+      "rnd_core_24__pari" => rnd_core_24__pari::make,
+      "rnd_core_27__par" => rnd_core_27__par::make,
+      "rnd_core_30__ser" => rnd_core_30__ser::make,
+      "rnd_agg_02__pari" => rnd_agg_02__pari::make,
+      "rnd_agg_05__par" => rnd_agg_05__par::make,
+      "rnd_agg_08__ser" => rnd_agg_08__ser::make,
+      "rnd_agg_10__pari" => rnd_agg_10__pari::make,
+      "rnd_agg_13__par" => rnd_agg_13__par::make,
+      "rnd_prec_01__ser" => rnd_prec_01__ser::make,
+      "rnd_prec_02__to" => rnd_prec_02__to::make,
+      "rnd_prec_04__par" => rnd_prec_04__par::make,
+      "rnd_prec_05__topar" => rnd_prec_05__topar::make,
+      "rnd_prec_07__pari" => rnd_prec_07__pari::make,
+      "rnd_prea_01__ser" => rnd_prea_01__ser::make,
+      "rnd_prea_03__pari" => rnd_prea_03__pari::make,
+      "rnd_prea_06__par" => rnd_prea_06__par::make,
       _ => panic!("no such program variant in this shard: {}", name),
    }
 }
